@@ -94,6 +94,7 @@ package server
 // reference-count discipline (C17 'refs' accounting, not proved): a Lock that is held, or queued and not yet answered,
 // is referenced by more than the queue entry being dropped, hence never returned to the free list by queue maintenance
 //@ spec func refDiscipline() = forallref(l, Lock, implies(old(l.locked) > 0 || (!old(l.timeouted) && old(l.ackCount) == 0xff), lockSameModRef(l)))
+//@ spec func refDisciplineExcept(x) = forallref(l, Lock, implies(l != x && (old(l.locked) > 0 || (!old(l.timeouted) && old(l.ackCount) == 0xff)), lockSameModRef(l)))
 //@ spec func otherLocksSame(x) = forallref(l, Lock, implies(l != x, lockSame(l)))
 //@ spec func otherManagersSame(m) = forallref(o, LockManager, implies(o != m, o.locked == old(o.locked) && o.currentLock == old(o.currentLock) && o.waited == old(o.waited) && o.lockKey == old(o.lockKey) && o.refCount == old(o.refCount) && o.currentData == old(o.currentData)))
 
@@ -188,7 +189,7 @@ package server
 //@   ensures C07.grant.aoftime: implies(old(self.currentLock) == nil && lock.command.ExpriedFlag&0x1300 == 0x0100, lock.aofTime == 0) && implies(old(self.currentLock) == nil && lock.command.ExpriedFlag&0x1300 == 0x0200, lock.aofTime == 0xff) && implies(old(self.currentLock) != nil, lock.aofTime == old(self.currentLock.aofTime))
 //@   ensures C11.grant.ack: lock.ackCount == ite(lock.command.Flag&0x04 == 0 && lock.command.TimeoutFlag&0x1000 != 0, 0, old(lock.ackCount))
 //@   ensures lock.manager == old(lock.manager) && lock.command == old(lock.command) && lock.protocol == old(lock.protocol) && lock.timeouted == old(lock.timeouted) && lock.expried == old(lock.expried) && lock.longWaitIndex == old(lock.longWaitIndex) && lock.timeoutTime == old(lock.timeoutTime) && lock.data == old(lock.data)
-//@   assumes implies(old(lock.locked) == 0, refDiscipline())
+//@   assumes implies(old(lock.locked) == 0, refDisciplineExcept(lock))
 //@   modifies Lock.locked@lock, Lock.startTime@lock, Lock.expriedTime@lock, Lock.expriedCheckedCount@lock, Lock.ackCount@lock, Lock.isAof, Lock.aofTime, Lock.refCount, LockManager.currentLock@self, LockManager.locks@self, LockManager.refCount, LockManagerLockQueue.*, LockQueue.*, Lock.command, Lock.data, Lock.manager, Lock.protocol, E_LJPserver_Lock, E_Pserver_Lock, E_int32, MH_mapLL16JbyteJPserver_Lock, MV_mapLL16JbyteJPserver_Lock
 
 //@ func (*LockManager).RemoveLock
